@@ -53,6 +53,8 @@ package state
 //@   ensures [ids] forall x *Task :: {x.id} x.id == old(x.id)
 //@   ensures [handled] (forall a *Task, b *Task :: {a.id, b.id} a.id == b.id ==> a == b) ==> forall x *Task :: {x.status} seenTasks[x.id] && !old(seenTasks[x.id]) ==> !isSource(effSt(x))
 //@   ensures [input-seen] forall j int :: 0 <= j && j < old(len(tasks)) ==> seenTasks[old(tasks[j]).id]
+//@   ensures [worklist-exhausted] final(i) == len(final(tasks)) && forall j int :: 0 <= j && j < len(final(tasks)) ==> seenTasks[final(tasks)[j].id]
+//@   loop 2: step [halt-task-queued-unless-seen] seenTasks[halted.id] || (len(tasks) == old(len(tasks)) + 1 && tasks[len(tasks) - 1] == halted)
 //@   loop 0: invariant (forall a *Task, b *Task :: {a.id, b.id} a.id == b.id ==> a == b) ==> forall x *Task :: {x.status} seenTasks[x.id] && !old(seenTasks[x.id]) ==> !isSource(effSt(x))
 //@   loop 0: invariant forall j int :: 0 <= j && j < i ==> seenTasks[tasks[j].id]
 //@   loop 2: invariant forall j int :: 0 <= j && j <= i ==> seenTasks[tasks[j].id]
